@@ -97,6 +97,40 @@ CAT['req_status'] = [B(':method', 'GET'), B(':scheme', 'https'), B(':authority',
                      B(':status', '200')]
 
 
+# ---- header lists whose HPACK block has a chosen length (first block of a fresh encoder, default Huffman coding): the
+#      block sizes are measured with the third-party hpack encoder, not with the library under test.  All fields are
+#      already normalised (lower case, no surrounding whitespace, nothing sensitive), so the library encodes them as given.
+def block_len(toks):
+    from hpack import Encoder
+    return len(Encoder().encode([(t['n'].encode('latin-1'), t['v'].encode('latin-1')) for t in toks]))
+
+
+def sized(base, target):
+    """base + one x-fill field whose value makes the encoded block exactly `target` octets long"""
+    n = max(1, (target * 8) // 5 - 80)
+    while True:
+        for k in range(0, 9):
+            toks = base + [B('x-fill', 'a' * n + '&' * k)]
+            ln = block_len(toks)
+            if ln == target:
+                return toks
+            if ln > target + 2:
+                break
+        n += 1
+        if n > target * 2:
+            raise RuntimeError('cannot reach block length %d' % target)
+
+
+BIG = {}
+for _t in (16379, 16380, 16383, 16384, 16385, 32768):
+    BIG['req_big_%d' % _t] = sized(req(), _t)
+for _t in (16380, 16384, 16385):
+    BIG['resp_big_%d' % _t] = sized([B(':status', '200')], _t)
+CAT.update(BIG)
+# block length of each list when it is the first block a fresh HPACK encoder writes (-1: not measured / not stable)
+BL0 = {name: (block_len(toks) if name in BIG or name in ('req_get', 'resp200', 'req_get_b', 'trl') else -1) for name, toks in CAT.items()}
+
+
 def tla(v):
     if isinstance(v, bool):
         return 'TRUE' if v else 'FALSE'
@@ -129,6 +163,8 @@ def main():
         items.append('  %s |-> <<%s>>' % (name, ',\n      '.join(ts)))
     lines.append(',\n'.join(items))
     lines.append(']')
+    lines.append('\\* length of the HPACK block of a list when it is the first block of a fresh encoder (-1: not given)')
+    lines.append('BL0 == [' + ', '.join('%s |-> %d' % (k, v) for k, v in BL0.items()) + ']')
     lines.append('=============================================================================')
     open(os.path.join(here, 'Cat.tla'), 'w').write('\n'.join(lines) + '\n')
     json.dump(CAT, open(os.path.join(here, 'Cat.json'), 'w'), indent=0, sort_keys=True)
